@@ -17,7 +17,13 @@ CHECKS['C12'] = {
             'contains 2-3 services whose weights for the read hash / the hash of the data written / one of the balancer hashes share their '
             'first 4-8 hex digits and differ later (birthday search over splitmix64-derived candidates, a pure function of a drawn seed), or '
             'a precomputed pair sharing 10-16 hex digits (also as the block written); 27-character and other-length UUID classes; in 1/3 of the read-hash groups one '
-            'member is the ADDED service. Labels *:longest-common-weight-prefix=... measure the set itself. non-trivial = at least 2 services; distinct = fingerprint of (uuids, hash, locator)',
+            'member is the ADDED service. Labels *:longest-common-weight-prefix=... measure the set itself. non-trivial = at least 2 services; distinct = fingerprint of (uuids, hash, locator). '
+            'Round 3, unit "stateful": ONE KeepClient over a history of 3-10 lookups of the SAME hash (getSortedRoots, Get, Ask all-miss, Ask with holders, PutB all-refuse) '
+            'with the service set replaced between lookups through SetServiceRoots / LoadKeepServicesFromJSON: one uuid swapped for a new one (same or new address), '
+            'the address of a uuid changed, two services exchanging addresses, the whole set replaced by another of the same size, gateway uuid swapped / re-addressed '
+            '(hints to current and former gateways), read-only flag toggled, one service added/removed, configuration route switched; another hash is looked up in '
+            'between in only ~1/8 of the steps. After every replacement the probe order must be the documented order of the CURRENT set; non-trivial = at least one '
+            're-lookup of the hash after a replacement',
     'assumptions': [
         'service sets in which two services share the 15-character UUID suffix (equal weights, order undefined by the documentation) are not generated',
         'a usable hint that names a service which is also a local root: only the position of the hinted probe and the relative order of the other services are checked (whether the service is probed twice is unspecified)',
@@ -26,6 +32,7 @@ CHECKS['C12'] = {
     ],
     'units': [
         unit('client', 'keepclient_c12', '^TestVerifC12ClientProbeOrder$', {'shards': 10, 'checks': 1500}, {'shards': 16, 'checks': 48000, 'timeout': 3000}),
+        unit('stateful', 'keepclient_c12', '^TestVerifC12ClientStateful$', {'shards': 6, 'checks': 500}, {'shards': 16, 'checks': 10000, 'timeout': 3000}),
         unit('balancer', 'keepbalance_c12', '^TestVerifC12BalancerRanking$', {'shards': 6, 'checks': 500}, {'shards': 16, 'checks': 24000, 'timeout': 3000}),
     ],
 }
